@@ -197,6 +197,62 @@ func RuleH1(c *Ctx) {
 				return false
 			}
 			_ = valueVar
+			// a declaration is either refused or registered: when the insert is a statement
+			// of the function body itself (not in a loop or a branch) and the function
+			// rejects an existing key with an error, every success return comes after the
+			// insert - no early `return nil` that drops the declaration unregistered and
+			// unchecked ("a macro nobody pastes need not be kept")
+			if kind == "unique" && body.lit == nil {
+				top := false
+				for _, st := range fd.Body.List {
+					if st == ast.Stmt(as) {
+						top = true
+					}
+				}
+				rejects := false
+				if top {
+					inspectNoLit(fd.Body, func(y ast.Node) bool {
+						ret, ok := y.(*ast.ReturnStmt)
+						if !ok || len(ret.Results) == 0 {
+							return true
+						}
+						if tv, has := info.Types[ret.Results[len(ret.Results)-1]]; has && tv.IsNil() {
+							return true
+						}
+						for _, fa := range cf.FactsAt(ret) {
+							if fa.Truth {
+								if m, k, found := mapLookupOf(info, cf, fa.Expr); found && sameMap(m, ix.X) && cfgx.SameExpr(info, k, ix.Index) {
+									rejects = true
+								}
+							}
+						}
+						return true
+					})
+				}
+				if top && rejects {
+					skip := ""
+					inspectNoLit(fd.Body, func(y ast.Node) bool {
+						ret, ok := y.(*ast.ReturnStmt)
+						if !ok || len(ret.Results) == 0 {
+							return true
+						}
+						if tv, has := info.Types[ret.Results[len(ret.Results)-1]]; !has || !tv.IsNil() {
+							return true
+						}
+						stored := func(nd ast.Node) bool { return nd == ast.Node(as) }
+						if !cf.MustAt(ret, nil, stored, nil) {
+							skip = c.P.Pos(ret.Pos())
+						}
+						return true
+					})
+					rkey := fmt.Sprintf("%s:%s:registered-or-refused", fn, name)
+					if skip == "" {
+						sc.Holds(rkey, c.P.Pos(as.Pos()), "every success return comes after the insert")
+					} else {
+						sc.Violation(rkey, c.P.Pos(as.Pos()), "the success return at "+skip+" leaves the function before "+name+"["+types.ExprString(ix.Index)+"] is stored and before the duplicate test: a declaration that takes this exit is neither registered nor checked, so a second one with the same name is accepted")
+					}
+				}
+			}
 			if cf.MustAt(as, gen, nil, nil) {
 				sc.Holds(key, c.P.Pos(as.Pos()), kind+": preceded by a lookup (not found) of the same key")
 			} else if why, ok := c.h1CallersLookedUp(pk, fd, ix); ok {
